@@ -1,4 +1,4 @@
-import Orca.Lemmas.Idem
+import Orca.Lemmas.IdemHist
 /-!
 # C05 — encoding again without edits gives the same bytes
 
@@ -7,7 +7,10 @@ sets a `recalculate_ids` flag, the first encode reorganises the vectors and rewr
 the stored ids and the flags stay as they were, so the second encode maps already-mapped indices again.
 `c05_second_encode_counterexample` decides a concrete instance in the model; the same history is replayed on the
 crate from `corpus/`. What is proved is the part of the statement that holds: histories that leave no re-indexing
-pending (injections of any kind, initialiser changes, global additions through `add_global`, exports, data).
+pending (injections of any kind, initialiser changes, global additions through `add_global`, exports, data) — for states
+(`c05_encode_idem_partial`) and for **every history** of such operations on a parsed module
+(`c05_encode_idem_after_quiet_history`; the invariants it needs are proved inductive in Lemmas/Preserve.lean and
+Lemmas/IdemHist.lean).
 -/
 namespace Orca.Edit
 open Orca.Reindex
@@ -19,6 +22,15 @@ theorem c05_encode_idem_partial (s : St) (hn : NoReindexPending s)
     (hr : ∀ r ∈ allRefs s, InRange s r) (hk1 : KeysNodup s.ginit) (hk2 : KeysNodup s.code) :
     (encode s).1 = s ∧ encode (encode s).1 = encode s :=
   ⟨encode_fixpoint s hn hf hg hm hr hk1 hk2, encode_twice_same s hn hf hg hm hr hk1 hk2⟩
+
+/-- **partial, for histories.** `s0` is what the parser builds (`StInv`, `IdemInv`: no flag set, every stored reference in
+    range, one initialiser per global and one code entry per function); `ops` is any sequence of injections, initialiser
+    changes, `add_global`s, export additions / deletions and data additions whose references make sense when they are
+    issued (`QuietHist`). Then the first encode changes nothing and the second encode gives the same module. -/
+theorem c05_encode_idem_after_quiet_history (s0 : St) (h0 : StInv s0) (hi : IdemInv s0) (ops : List Op) (hq : QuietHist s0 ops) :
+    let s := (run s0 ops).1
+    (encode s).1 = s ∧ encode (encode s).1 = encode s :=
+  encode_twice_after_quiet_history s0 h0 hi ops hq
 
 /-- the full statement fails: one local function that calls itself, one `add_import_func`; the first encode emits the
     call with index 1 (the function itself, uid 10), the second with index 0 (the import, uid 11) -/
